@@ -59,10 +59,15 @@ ASSUMPTIONS = [
     "the lexicon may still list a term whose documents have all been deleted (segments are immutable until merged); "
     "such a term must have an empty posting list and is ignored in the comparison with the model",
     "scores are compared only between two probes of the same held searcher (the reference scorer is C09's business)",
-    "loose (compound=False) segments: see the listed finding; classifier = the disagreement is confined to lazily "
-    "opened parts (columns, field lengths, vectors, sorted/scored search) or is an exception raised while evaluating "
-    "them, AND the reader holds a loose segment of which a file was removed (tap 'remove' event) after the TOC it was "
-    "opened from was superseded; everything else is a violation",
+    "loose (compound=False) segments: see the listed finding; the classifier emits the known mechanism only when ALL "
+    "of: the layout is not all-compound; the reader holds a loose segment of which files were removed (tap 'remove' "
+    "events); the disagreement is confined to column-backed parts (stored fields, lengths, vectors, columns, sorted / "
+    "scored search) or is an exception raised while evaluating them; and the tap log shows that DURING THE FAILING "
+    "PROBE this thread looked for (open-r / stat; RamStorage: file_exists / file_length, logged by a harness wrapper) "
+    "a file of such a segment whose remove event precedes the look-up (a W3 reader caches the handles of the "
+    "column files it has opened and never looks for them again, so such a look-up is a FIRST open after the "
+    "removal). Everything else is a violation (in particular any failure of a reader over compound segments, and of "
+    "parts a loose-segment reader had opened before the removal)",
 ]
 SHARDS = {"quick": 4, "thorough": 16}
 BUDGET_S = {"quick": 60, "thorough": 660}
@@ -109,6 +114,10 @@ def make_schema():
                          t=fields.TEXT(stored=True, vector=True),
                          n=fields.NUMERIC(stored=True, sortable=True),
                          k=fields.KEYWORD(stored=True))
+
+
+def _plain(b):
+    return b[4:] if b.startswith("ram:") else b
 
 
 def _base(name):
@@ -290,6 +299,9 @@ class History(object):
         self.completed = g0          # newest generation whose writer has released the lock
         self.removed = {}            # segment id -> first remove event n
         self.removed_files = {}      # segment id -> set(ext)
+        self.removed_file_n = {}     # file name -> n of its remove event
+        self.opened = {}             # tid -> {file: n of first open-r since the thread's last fresh open}
+        self.touched = {}            # tid -> [(n, file, kind)]  open-r / stat / ram-probe of segment files
         self.inject = {}             # tid -> [events to go, pause steps]
         self.problems = []
         self.nevents = 0
@@ -310,6 +322,13 @@ class History(object):
             if m:
                 self.removed.setdefault(m.group(1), n)
                 self.removed_files.setdefault(m.group(1), set()).add(m.group(2))
+                self.removed_file_n.setdefault(_plain(b), n)
+        elif kind == "open-r" or kind == "stat":
+            if tid is not None and SEGRE.match(b):
+                f = _plain(b)
+                self.touched.setdefault(tid, []).append((n, f, kind))
+                if kind == "open-r":
+                    self.opened.setdefault(tid, {}).setdefault(f, n)
         elif kind == "lock-released" and b.endswith(LOCKNAME) and tid is not None:
             mine = [c["gen"] for c in self.commits if c["tid"] == tid]
             if mine and mine[-1] > self.completed:
@@ -322,6 +341,37 @@ class History(object):
                 inj[2]["fired"] = (kind, b)
                 s.pause(inj[1])
         s.on_event(n, kind, name, detail)
+
+    def ram_probe(self, name):
+        """RamStorage.file_exists / file_length are not tap events: logged from a harness-side wrapper."""
+        tid = self.sched.current()
+        if tid is not None and SEGRE.match(name):
+            self.touched.setdefault(tid, []).append((self.tap.n + 0.5, name, "ram-probe"))
+
+    def lazy_evidence(self, tid, reader, n0):
+        """Files of LOOSE segments of `reader` that thread `tid` looked for (open / stat) after event n0 although a
+        writer's clean_files had removed them before."""
+        loose = set()
+        for seg in (reader.segments() or []):
+            try:
+                if not seg.is_compound():
+                    loose.add(seg.segment_id())
+            except Exception:  # noqa
+                pass
+        ev = []
+        for (n, f, kind) in self.touched.get(tid, []):
+            if n <= n0:
+                continue
+            m = SEGRE.match(f)
+            if not m or m.group(1) not in loose:
+                continue
+            rn = self.removed_file_n.get(f)
+            if rn is None or rn > n:
+                continue
+            # (a reader that has a column file open never looks for it again - W3PerDocReader caches the handle -
+            # so a look-up during this probe means that THIS reader object had not opened the file before)
+            ev.append(f)
+        return sorted(set(ev))
 
     def model(self, gen):
         m = dict(self.model0)
@@ -474,7 +524,7 @@ def loose_orphans(H, reader):
     return out
 
 
-def judge(env, monitor, what, reader, got, errs, exp, base_w, parts_checked):
+def judge(env, monitor, what, reader, got, errs, exp, base_w, parts_checked, n0=0):
     """Compare `got` (fingerprint) with `exp`. Returns True when it agrees. Disagreements that are exactly the listed
     loose-segment mechanism are recorded under the known mech; everything else is a violation."""
     H, ctx = env.H, env.ctx
@@ -488,9 +538,11 @@ def judge(env, monitor, what, reader, got, errs, exp, base_w, parts_checked):
     if not bad_parts and not err_parts:
         return True
     orphans = loose_orphans(H, reader)
+    evidence = H.lazy_evidence(env.sched.current(), reader, n0)
     w = dict(base_w)
     w.update({"what": what, "parts_differing": bad_parts, "parts_raising": dict((p, repr(errs[p])[:200]) for p in err_parts),
-              "loose_segments_with_removed_files": orphans})
+              "loose_segments_with_removed_files": orphans,
+              "removed_files_first_looked_for_by_this_probe": evidence[:6]})
     for p in bad_parts[:3]:
         w["got:" + p] = got.get(p)
         w["expected:" + p] = exp.get(p)
@@ -499,7 +551,7 @@ def judge(env, monitor, what, reader, got, errs, exp, base_w, parts_checked):
         e = errs[p]
         detail = "".join(traceback.format_exception(type(e), e, e.__traceback__))[-2500:]
     lazy_only = all(p in COLUMN_BACKED for p in bad_parts + err_parts)
-    if orphans and lazy_only and env.layout != "compound":
+    if orphans and evidence and lazy_only and env.layout != "compound":
         ctx.count("known.loose_lazy." + what)
         for p in bad_parts:
             ctx.count("known.loose_lazy.part.%s.differs" % p)
@@ -541,6 +593,7 @@ def open_searcher(env, rng, info, refresh_from=None):
         info["inject"] = inj
     try:
         if refresh_from is None:
+            H.opened[tid] = {}
             sr = ix.searcher()
         else:
             sr = refresh_from.refresh()
@@ -589,10 +642,11 @@ def check_fresh(env, what, sr, completed_before, info, content=True):
         return g
     model = H.model(g)
     errs = {}
+    n0 = env.tap.n
     fp = fingerprint(sr, parts=OPEN_PARTS, errors=errs)
     exp = expected(model, parts=OPEN_PARTS)
     ctx.count(what + ".content_evals")
-    if not judge(env, "commit-state", what, r, comparable(fp), errs, exp, w, OPEN_PARTS):
+    if not judge(env, "commit-state", what, r, comparable(fp), errs, exp, w, OPEN_PARTS, n0):
         return None if env.stop else "known"
     bad = freq_ok(fp, model)
     if bad:
@@ -654,8 +708,10 @@ def reader_thread(env, k):
         # ---- first probe
         fp0, errs0 = None, {}
         if mode == "pretouched":
+            n0 = env.tap.n
             fp0 = fingerprint(sr, errors=errs0)
-            if not judge(env, "held-snapshot", "probe-at-open", r, comparable(fp0), errs0, expected(model), w, ALL_PARTS):
+            if not judge(env, "held-snapshot", "probe-at-open", r, comparable(fp0), errs0, expected(model), w, ALL_PARTS,
+                         n0):
                 if env.stop:
                     break
                 sr = _drop(sr)
@@ -682,9 +738,11 @@ def reader_thread(env, k):
         w = dict(env.wb)
         w.update(info)
         errs1 = {}
+        n0 = env.tap.n
         fp1 = fingerprint(sr, errors=errs1)
         ctx.count("held.evals")
-        if not judge(env, "held-snapshot", "probe-after-hold", r, comparable(fp1), errs1, expected(model), w, ALL_PARTS):
+        if not judge(env, "held-snapshot", "probe-after-hold", r, comparable(fp1), errs1, expected(model), w, ALL_PARTS,
+                     n0):
             if env.stop:
                 break
             sr = _drop(sr)         # listed finding: this searcher is of no further use
@@ -834,8 +892,28 @@ def run_thread_case(ctx, idx, rng):
             s.spawn("w%d" % k, writer_thread, env, k)
         for k in range(nreaders):
             s.spawn("r%d" % k, reader_thread, env, k)
-        with S.WhooshPatches(s) as patches:
-            out = s.run()
+        ram_saved = None
+        if storage == "ram":
+            # existence / length probes of RamStorage are no tap events; log them (no scheduling point) so that the
+            # classifier of the listed finding has the same evidence as on disk
+            ram_saved = (RamStorage.file_exists, RamStorage.file_length)
+
+            def file_exists(self_, name, _f=ram_saved[0]):
+                if self_ is st:
+                    H.ram_probe(name)
+                return _f(self_, name)
+
+            def file_length(self_, name, _f=ram_saved[1]):
+                if self_ is st:
+                    H.ram_probe(name)
+                return _f(self_, name)
+            RamStorage.file_exists, RamStorage.file_length = file_exists, file_length
+        try:
+            with S.WhooshPatches(s) as patches:
+                out = s.run()
+        finally:
+            if ram_saved is not None:
+                RamStorage.file_exists, RamStorage.file_length = ram_saved
         tap.on_event = None
         ctx.count("sched.steps", out.steps)
         ctx.count("sched.switches", out.switches)
